@@ -467,12 +467,60 @@ fn zero_residual_probes<T: Sc>(rep: &mut Report) {
     }
 }
 
+/// C14: a sample at which the whole Jacobian row [Phi | (dPhi/dalpha) c] is exactly zero (the fitted
+/// curve does not depend on any parameter there) has a band of radius exactly 0 - finite - for every p;
+/// the other samples have finite positive radii.  Exactly stationary start: y = Phi c + r with
+/// Phi^T r = 0 and (D c)^T r = 0.
+fn zero_row_probe<T: Sc>(rep: &mut Report) {
+    let phi: Vec<Vec<i64>> = vec![vec![0], vec![1], vec![1], vec![1], vec![1]];
+    let dphi: Vec<Vec<i64>> = vec![vec![0], vec![1], vec![-1], vec![2], vec![-2]];
+    let r = [5.0f64, 1.0, 1.0, -1.0, -1.0];
+    let c = 2.0f64;
+    let n = 5usize;
+    let fam = FamJ { name: "TAB".into(), m: 1, p: 1, seed: 0 };
+    let table = table_of::<T>(&fam, &[0], &phi, &[dphi.clone()], n);
+    let xs: Vec<T> = (0..n).map(|i| T::of64(i as f64)).collect();
+    let y = DMatrix::from_fn(n, 1, |i, _| T::of64(phi[i][0] as f64 * c + r[i]));
+    for par in [false, true] {
+        let flav = format!("zero Jacobian row probe {} par={}", T::NAME, par);
+        let det = |what: &str| json!({"flavour": flav, "what": what});
+        let Ok(prob) = make::<T>(MKind::Table, &fam, &table, &xs, &[0], &y, None, par) else {
+            rep.tool_error(format!("cannot build {flav}"));
+            continue;
+        };
+        let out = match catch_unwind(AssertUnwindSafe(|| prob.fit_stats(&stat_cfg::<T>(), &[0.5, 0.9, 0.99], &[]))) {
+            Err(_) => {
+                rep.violation("C14", det("fit_with_statistics panicked"));
+                continue;
+            }
+            Ok(o) => o.expect("single rhs"),
+        };
+        if !(out.fit.nfev == 1 && out.fit.termination == "Orthogonal") {
+            rep.count("zero_row_probe_left_the_start", 1);
+            continue;
+        }
+        let Some(st) = out.stats else {
+            rep.violation("C12", det("fit_with_statistics returned Err on a well determined, successful fit"));
+            continue;
+        };
+        for (pv, band) in st.bands.iter() {
+            rep.check("C14", band.len() == n && band[0].to64() == 0.0, 0.0, || {
+                det(&format!("radius at the sample with an all-zero Jacobian row is {:?} instead of 0 (p = {pv})", band.first().map(|v| v.to64())))
+            });
+            rep.check("C14", band.iter().skip(1).all(|v| v.to64().is_finite() && v.to64() > 0.0), 0.0, || det(&format!("radius not finite and positive at the other samples (p = {pv})")));
+        }
+        rep.count("zero_row_probes", 1);
+    }
+}
+
 pub fn run(path: &str) -> Report {
     let st = crate::export::read_tagged(path, "VPST");
     let su = crate::export::read_tagged(path, "VPSU");
     let mut total = Report::new();
     zero_residual_probes::<f64>(&mut total);
     zero_residual_probes::<f32>(&mut total);
+    zero_row_probe::<f64>(&mut total);
+    zero_row_probe::<f32>(&mut total);
     let reps: Vec<Report> = st
         .par_iter()
         .enumerate()
